@@ -5,6 +5,6 @@ From Coq Require Import ZArith NArith.
 From GV Require Import Pattern.Common Pattern.Build Pattern.Machine Pattern.Spec Pattern.Drivers Pattern.Top.
 Extraction Language OCaml.
 Extraction "model.ml" Z.add N.add Nat.add Pos.add
-  Build.build Machine.api Top.spec_find_list Top.backref_to_position
+  Build.build Machine.api Top.spec_find_list Top.backref_to_position Top.wf_pattern
   Drivers.find_im Drivers.match_im Drivers.gmatch_im Drivers.gsub_im
   Drivers.find_s Drivers.match_s Drivers.gmatch_s Drivers.gsub_s.
